@@ -57,7 +57,7 @@ def gen_file(rng, fields: List[Dict[str, Any]], kind: str) -> Dict[str, Any]:
 
 
 def gen_tx_case(rng, ntx: int) -> Dict[str, Any]:
-    from harness.props.c11 import VARIANTS, gen_records, make_variant, mk_fields
+    from harness.props.c11 import BUILD_MODES, KEEPS_SID, VARIANTS, gen_records, make_variant, mk_fields
     fields = mk_fields(rng, rng.choice([1, 2, 2, 3]))
     txs = []
     for _ in range(ntx):
@@ -81,7 +81,10 @@ def gen_tx_case(rng, ntx: int) -> Dict[str, Any]:
                     if v is not None:
                         break
                 arg, sid = v
-                calls.append({"op": "records", "variant": vname, "arg": arg, "sid": sid,
+                build = "fresh" if arg is None or rng.random() < 0.5 else rng.choice(BUILD_MODES[1:])
+                if build in KEEPS_SID:
+                    sid = 1
+                calls.append({"op": "records", "variant": vname, "arg": arg, "sid": sid, "build": build,
                               "records": gen_records(rng, arg if arg is not None else fields, 0.15)})
         txs.append({"handle": rng.choice(["A", "A", "B", "fresh"]), "calls": calls, "end": rng.choice(ENDS)})
     return {"kind": "tx", "fields": fields, "txs": txs, "seed": rng.getrandbits(30)}
@@ -95,7 +98,7 @@ def tx_case_json(case: Dict[str, Any]) -> Dict[str, Any]:
             if c["op"] == "files":
                 calls.append({"op": "files", "files": [{"kind": f["kind"], "rows": [enc_record(r) for r in f["rows"]]} for f in c["files"]]})
             else:
-                calls.append({"op": "records", "variant": c["variant"], "arg": c["arg"], "sid": c["sid"],
+                calls.append({"op": "records", "variant": c["variant"], "arg": c["arg"], "sid": c["sid"], "build": c.get("build", "fresh"),
                               "records": [enc_record(r) for r in c["records"]]})
         out["txs"].append({"handle": tx["handle"], "end": tx["end"], "calls": calls})
     return out
@@ -109,7 +112,7 @@ def tx_case_unjson(j: Dict[str, Any]) -> Dict[str, Any]:
             if c["op"] == "files":
                 calls.append({"op": "files", "files": [{"kind": f["kind"], "rows": [dec_record(r) for r in f["rows"]]} for f in c["files"]]})
             else:
-                calls.append({"op": "records", "variant": c["variant"], "arg": c["arg"], "sid": c["sid"],
+                calls.append({"op": "records", "variant": c["variant"], "arg": c["arg"], "sid": c["sid"], "build": c.get("build", "fresh"),
                               "records": [dec_record(r) for r in c["records"]]})
         out["txs"].append({"handle": tx["handle"], "end": tx["end"], "calls": calls})
     return out
@@ -185,7 +188,7 @@ def build_file(root: str, fields: List[Dict[str, Any]], spec: Dict[str, Any], na
 def run_tx_case(case: Dict[str, Any], root: str, filters_per_col: int = 1) -> Dict[str, Any]:
     from datashard import create_table, load_table
     from datashard.data_structures import Schema
-    from harness.props.c11 import OPS, _eval_filter, _judge_rows, _same_rows, declared_type, observe, same_table_state
+    from harness.props.c11 import OPS, _eval_filter, _judge_rows, _same_rows, build_schema, declared_type, observe, same_table_state
     rng = random.Random(case.get("seed", 0))
     shutil.rmtree(root, ignore_errors=True)
     fields = case["fields"]
@@ -228,7 +231,7 @@ def run_tx_case(case: Dict[str, Any], root: str, filters_per_col: int = 1) -> Di
                     t.append_files(dfs)
                 else:
                     arg = call["arg"]
-                    schema = Schema(schema_id=call["sid"], fields=copy.deepcopy(arg)) if arg is not None else None
+                    schema = build_schema(call.get("build", "fresh"), call["sid"], arg, fields, handle) if arg is not None else None
                     t.append_data(records=copy.deepcopy(call["records"]), schema=schema)
                     eff = arg if arg is not None else fields
                     types = {f["name"]: declared_type(f["type"]) for f in eff}
